@@ -16,8 +16,9 @@
      emfile / enfile / nomem  -1 with EMFILE / ENFILE / ENOMEM     (non-retriable)
 
    The accept callback and the error callback perform scripted calls on the
-   listener (disable, free, set_cb(NULL), set_cb(other fn)) - the re-entrant
-   paths of the property.
+   listener (disable, free, set_cb(NULL), set_cb(other fn), and two-call scripts
+   disable / set_cb(NULL) / enable / disable+enable followed by free) - the
+   re-entrant paths of the property.
 
    Named deviations (what the code does where the property leaves it open):
      DropOneWhenNoCb   armed with cb = NULL (set_cb(NULL) after enabling): one run
@@ -85,6 +86,11 @@ ApplyCbAct(S, a) ==
     [] a = "setnull" -> SetCbOp(S, 0)
     [] a = "setfn2" -> SetCbOp(S, 2)
     [] a = "disen" -> EnableOp(DisableOp(S))
+    \* two calls from one callback invocation, the second being free (after free the listener must not be touched)
+    [] a = "disfree" -> FreeInCb(DisableOp(S))
+    [] a = "nullfree" -> FreeInCb(SetCbOp(S, 0))
+    [] a = "enfree" -> FreeInCb(EnableOp(S))
+    [] a = "disenfree" -> FreeInCb(EnableOp(DisableOp(S)))
     [] OTHER -> S
 
 ErrName(r) == CASE r = "emfile" -> "EMFILE" [] r = "enfile" -> "ENFILE" [] OTHER -> "ENOMEM"
